@@ -82,7 +82,7 @@ class Likelihood:
             if self.keep_log:
                 self.by_x[k] = ll
                 self.order.append(k)
-            if self.mode == "blobs":
+            if self.mode in ("blobs", "blobs2"):
                 i = self._next
                 self._next += 1
                 if self.keep_log:
@@ -92,6 +92,8 @@ class Likelihood:
                 self.shared.value += 1
         if self.mode == "blobs":
             return ll, float(i)
+        if self.mode == "blobs2":
+            return ll, float(i), 0.5 * float(i)
         return ll
 
 
